@@ -18,7 +18,7 @@ set_option linter.unusedVariables false
 namespace PCV.C11
 open PCV PCV.LinCode PCV.Merkle
 open PCV.TraitDefault (Label Query polyStComm)
-variable {F : Type} [Field F] [DecidableEq F] {D : Type} [DecidableEq D]
+variable {F : Type} [Field F] [DecidableEq F] {D : Type} [DecidableEq D] {Pt : Type} [DecidableEq Pt]
 
 /-! ### (b) what is absorbed, when; what the challenges depend on -/
 
@@ -74,16 +74,32 @@ theorem lincode_unabsorbed_components_do_not_matter (ro : TRO F D) (tp : TParams
 /-! ### (a) lock-step -/
 
 /-- **`open` / `check` in lock-step, one polynomial.**  For every linear row encoder, every shape,
-every hash, every oracle and every prior history, with and without the well-formedness check: if
+every hash, every oracle and every prior history, with and without the well-formedness check, at a
+point with the number of coordinates the matrix width asks for (`hfit`, `PointFits`: whenever
+`tensor` answers its vector `a` has `n_cols` entries — every univariate point, `lincode_point_fits`;
+needed since fix D23, because `open` answers without looking at `a` while `check` refuses an `a` of
+another length, e.g. a multilinear point on a width that is not a power of two): if
 `open` answers, `check` on the same prior history accepts the claimed value and ends with EXACTLY
 the prover's event history. -/
 theorem lincode_open_check_lockstep_one (ro : TRO F D) (tp : TParams F D) (point : Point F)
-    (coeffs : List F) (E : List F → List F) (k : Nat) (h : Encodes tp.pp coeffs E k) (s : TLog F D)
-    (π : Proof F D) (s' : TLog F D)
+    (coeffs : List F) (E : List F → List F) (k : Nat) (h : Encodes tp.pp coeffs E k)
+    (hfit : PointFits point (coeffMat tp.pp.dims coeffs).m (coeffMat tp.pp.dims coeffs).n)
+    (s : TLog F D) (π : Proof F D) (s' : TLog F D)
     (ho : openOneT ro tp point (commitC tp.pp coeffs E k) (commitSt tp.pp coeffs E k) s = .ok (π, s')) :
     checkOneT ro tp point (commitC tp.pp coeffs E k) (claimed tp.pp point coeffs) π s
       = .ok (true, s') :=
-  oneT_lockstep ro tp point coeffs E k h s π s' ho
+  oneT_lockstep ro tp point coeffs E k h hfit s π s' ho
+
+/-- which points fit: every univariate point, whatever the shape; a multilinear point exactly when the
+width is a power of two (or the point has too few coordinates for `tensor` to answer, and then `open`
+aborts); hence every point when the width is a power of two -/
+theorem lincode_point_fits (nCols nRows : Nat) :
+    (∀ z : F, PointFits (Point.uni z) nCols nRows) ∧
+    (∀ pt : List F, PointFits (Point.ml pt) nCols nRows ↔
+      pt.length < ceilLog2 nCols ∨ 2 ^ ceilLog2 nCols = nCols) ∧
+    (2 ^ ceilLog2 nCols = nCols → ∀ point : Point F, PointFits point nCols nRows) :=
+  ⟨fun z => pointFits_uni z nCols nRows, fun pt => pointFits_ml_iff pt nCols nRows,
+    fun h point => pointFits_of_pow2 point nCols nRows h⟩
 
 /-- the commitment and state of the lock-step theorems are what `commit` returns -/
 theorem lincode_commit_is (pp : Params F D) (coeffs : List F) (E : List F → List F) (k : Nat)
@@ -91,42 +107,50 @@ theorem lincode_commit_is (pp : Params F D) (coeffs : List F) (E : List F → Li
     commit pp coeffs = .ok (commitC pp coeffs E k, commitSt pp coeffs E k) :=
   commit_eq pp coeffs E k h
 
-/-- **`open` / `check` in lock-step, a list of polynomials on one sponge.** -/
+/-- **`open` / `check` in lock-step, a list of polynomials on one sponge** (`hfit`: the point fits
+the width of every matrix, as in `lincode_open_check_lockstep_one`). -/
 theorem lincode_open_check_lockstep (ro : TRO F D) (tp : TParams F D) (point : Point F)
     (ts : List (List F × Comm D × State F D))
     (hh : ∀ t ∈ ts, HonestTriple tp.pp t.1 t.2.1 t.2.2)
+    (hfit : ∀ t ∈ ts, PointFits point (coeffMat tp.pp.dims t.1).m (coeffMat tp.pp.dims t.1).n)
     (s : TLog F D) (πs : List (Proof F D)) (s' : TLog F D)
     (ho : openAllT ro tp point (ts.map (·.2.1)) (ts.map (·.2.2)) s = .ok (πs, s')) :
     checkAllT ro tp point (ts.map (·.2.1)) (ts.map fun t => claimed tp.pp point t.1) πs s
       = .ok (true, s') :=
-  allT_lockstep ro tp point ts hh s πs s' ho
+  allT_lockstep ro tp point ts hh hfit s πs s' ho
 
 /-- **Lock-step over any history** of `open`, default `batch_open` and default
 `open_combinations` calls on one sponge (committed lists in which every triple is honest; a verifier
-holding the same commitments; `ltP` the order of the point type): for every operation list with
+holding the same commitments; `Pt` the point type of the scheme, embedded by `ι` — `Point.uni` for
+univariate Ligero, `Point.ml` for the multilinear schemes, `id` for both kinds at once — and `ltP`
+its order; `GoodTrips` also asks that every point of `Pt` fits the width of every committed matrix,
+which is needed since fix D23, see `lincode_open_check_lockstep_one`: no condition for `ι = Point.uni`
+(`goodTrips_uni`), power-of-two widths otherwise (`goodTrips_of_pow2`)): for every operation list with
 true claims, if the prover answers all of them, the verifier — performing the corresponding
 `check` / `batch_check` / `check_combinations` in the same order from the same initial history —
 accepts every proof and ends with exactly the prover's event history. -/
-theorem lincode_history_lockstep (ro : TRO F D) (tp : TParams F D)
-    (ltP : Point F → Point F → Bool) (hlt : QS.StrictTotal ltP) (hirr : ∀ a, ltP a a = false)
+theorem lincode_history_lockstep (ro : TRO F D) (tp : TParams F D) (ι : Pt → Point F)
+    (ltP : Pt → Pt → Bool) (hlt : QS.StrictTotal ltP) (hirr : ∀ a, ltP a a = false)
     (polys : List (LPoly F)) (sts : List (State F D)) (comms vcomms : List (LComm D))
     (hlen1 : sts.length = polys.length) (hlen2 : comms.length = polys.length)
-    (hhonest : GoodTrips tp.pp (polyStComm polys sts comms))
+    (hhonest : GoodTrips tp.pp ι (polyStComm polys sts comms))
     (hcm : ∀ l t, Marlin.lookupLast (fun (t : (LPoly F × State F D) × LComm D) => t.1.1.label) l
         (polyStComm polys sts comms) = some t →
         Marlin.lookupLast (fun (c : LComm D) => c.label) l vcomms = some t.2)
-    (ops : List (TrHistory.Op (Point F) F (LPoly F) (State F D) (LComm D)))
-    (vops : List (TrHistory.VOp (Point F) F (LComm D)))
-    (ht : List.Forall₂ (TrHistory.Truthful ltP (fun (p : LPoly F) => p.label) (evalLP tp.pp)
-      (GoodTrips tp.pp) polys sts comms) ops vops)
+    (ops : List (TrHistory.Op Pt F (LPoly F) (State F D) (LComm D)))
+    (vops : List (TrHistory.VOp Pt F (LComm D)))
+    (ht : List.Forall₂ (TrHistory.Truthful ltP (fun (p : LPoly F) => p.label)
+      (fun lp z => evalLP tp.pp lp (ι z)) (GoodTrips tp.pp ι) polys sts comms) ops vops)
     (s : TLog F D) (πs : List (TrHistory.OpProof F (List (Proof F D)))) (s' : TLog F D)
-    (hp : TrHistory.proverRun ltP (fun (p : LPoly F) => p.label) (evalLP tp.pp) (openF ro tp)
-      polys sts comms ops s = .ok (πs, s')) :
-    TrHistory.verifierRun ltP (fun (c : LComm D) => c.label) (checkF ro tp) vcomms vops πs s
-      = .ok (true, s') := by
+    (hp : TrHistory.proverRun ltP (fun (p : LPoly F) => p.label) (fun lp z => evalLP tp.pp lp (ι z))
+      (fun ts z => openF ro tp ts (ι z)) polys sts comms ops s = .ok (πs, s')) :
+    TrHistory.verifierRun ltP (fun (c : LComm D) => c.label) (fun cs z => checkF ro tp cs (ι z))
+      vcomms vops πs s = .ok (true, s') := by
   obtain ⟨sv', hv, hR⟩ := TrHistory.history_lockstep ltP (fun (p : LPoly F) => p.label)
-    (fun (c : LComm D) => c.label) (evalLP tp.pp) (GoodTrips tp.pp) polys sts comms vcomms hlt hirr
-    (openF ro tp) (checkF ro tp) (fun sp sv => sp = sv) (openF_checkF_complete ro tp)
+    (fun (c : LComm D) => c.label) (fun lp z => evalLP tp.pp lp (ι z)) (GoodTrips tp.pp ι)
+    polys sts comms vcomms hlt hirr
+    (fun ts z => openF ro tp ts (ι z)) (fun cs z => checkF ro tp cs (ι z)) (fun sp sv => sp = sv)
+    (openF_checkF_complete ro tp ι)
     (TrHistory.htrip_of_length _ polys sts comms hlen1 hlen2)
     (fun ls ts h t ht => hhonest t (TrHistory.gatherOpen_mem _ _ ls ts h t ht))
     hcm ops vops ht s s πs s' rfl hp
@@ -194,8 +218,9 @@ theorem lincode_displaced_positions_refused (ro : TRO F D) (tp : TParams F D) (p
 /-- **Displaced, same positions but other well-formedness coefficients: exact condition.**  When the
 transcript at `s₂` happens to yield the same positions `idx` but coefficients `r'` (the squeeze of
 `r` comes right after the root, so it changes with the prior history): accepted iff
-`(r' − r)·M_ext[:, q] = 0` on every opened column `q` (flag on) and the value is the claimed one.
-With the flag off nothing but the positions binds the proof to the transcript. -/
+`(r' − r)·M_ext[:, q] = 0` on every opened column `q` (flag on), the value is the claimed one, and
+(fix D23) the vectors of `tensor` have the lengths of the matrix, i.e. the point has the right number
+of coordinates.  With the flag off nothing but the positions binds the proof to the transcript. -/
 theorem lincode_displaced_coefficients_iff (pp : Params F D) (point : Point F) (coeffs : List F)
     (E : List F → List F) (k : Nat) (h : Encodes pp coeffs E k) (a b r r' : List F) (idx : List Nat)
     (value : F)
@@ -203,6 +228,7 @@ theorem lincode_displaced_coefficients_iff (pp : Params F D) (point : Point F) (
     (hi : ∀ i ∈ idx, i < k) :
     checkOne pp point (commitC pp coeffs E k) value (honestProof pp coeffs E k b ⟨r, idx⟩) ⟨r', idx⟩
         = .ok true ↔
+      a.length = (coeffMat pp.dims coeffs).m ∧ b.length = (coeffMat pp.dims coeffs).n ∧
       (pp.checkWf = true → ∀ q ∈ idx, dot r' (colOf (extOf pp coeffs E k).rows q)
         = dot r (colOf (extOf pp coeffs E k).rows q)) ∧
       dot (vecMat b (coeffMat pp.dims coeffs).rows (coeffMat pp.dims coeffs).m) a = value :=
@@ -230,7 +256,8 @@ example : ∃ π s', openOneT TEx.ro (TEx.tp true) (.uni 5) (commitC (toyPP true
   | ok r =>
     obtain ⟨π, s'⟩ := r
     simp only [h, decide_eq_true_eq] at hok
-    exact ⟨π, s', rfl, lincode_open_check_lockstep_one _ _ _ _ toyE 4 (toy_encodes true _ (by decide)) _ _ _ h, hok⟩
+    exact ⟨π, s', rfl, lincode_open_check_lockstep_one _ _ _ _ toyE 4 (toy_encodes true _ (by decide))
+      (pointFits_uni _ _ _) _ _ _ h, hok⟩
 /-- … and without it: 9 events -/
 example : (match openOneT TEx.ro (TEx.tp false) (.uni 5) (commitC (toyPP false) [1, 2, 3] toyE 4)
       (commitSt (toyPP false) [1, 2, 3] toyE 4) [] with
@@ -246,12 +273,16 @@ example : TEx.proverOut = .ok (TEx.histProofs, TEx.histLog) ∧ TEx.histLog.leng
 /-- … and the verifier accepts everything and ends with the same 66 events -/
 example : TrHistory.verifierRun TEx.ltPt (fun (c : LComm Nat) => c.label) (checkF TEx.ro (TEx.tp true))
     (TEx.comms true) TEx.vops TEx.histProofs [] = .ok (true, TEx.histLog) := TEx.verifier_eq
-/-- the hypotheses of `lincode_history_lockstep` on that history -/
+/-- the hypotheses of `lincode_history_lockstep` on that history (point type `Point K`, `ι = id`:
+univariate and multilinear points alike fit the `2 × 2` matrices) -/
 example : QS.StrictTotal TEx.ltPt ∧ (∀ a, TEx.ltPt a a = false) ∧
-    GoodTrips (toyPP true) (polyStComm TEx.polys (TEx.sts true) (TEx.comms true)) :=
+    GoodTrips (toyPP true) (id : Point K → Point K) (polyStComm TEx.polys (TEx.sts true) (TEx.comms true)) :=
   ⟨TEx.ltPt_strict, TEx.ltPt_irrefl, TEx.good true⟩
+/-- a univariate point fits every width, a multilinear point does not fit a width of 3 -/
+example : PointFits (Point.uni (5 : K)) 3 2 ∧ ¬ PointFits (Point.ml ([3, 8] : List K)) 3 2 :=
+  ⟨pointFits_uni _ _ _, fun h => absurd ((pointFits_ml_iff _ _ _).1 h) (by decide)⟩
 example : List.Forall₂ (TrHistory.Truthful TEx.ltPt (fun (p : LPoly K) => p.label) (evalLP (toyPP true))
-    (GoodTrips (toyPP true)) TEx.polys (TEx.sts true) (TEx.comms true)) TEx.ops TEx.vops := by
+    (GoodTrips (toyPP true) (id : Point K → Point K)) TEx.polys (TEx.sts true) (TEx.comms true)) TEx.ops TEx.vops := by
   refine .cons ?_ (.cons ?_ (.cons ?_ .nil))
   · refine ⟨fun t ht => TEx.good true t (List.mem_of_mem_take ht), by decide, rfl, by decide⟩
   · refine ⟨rfl, ?_⟩
